@@ -124,10 +124,18 @@ class C12(Machine):
 
     def _gen_op(self, rng, survey, config):
         k = rng.choice([
-            'compute', 'misfit', 'misfit', 'gradient', 'gradient', 'jvec',
+            'partial', 'compute', 'misfit', 'misfit', 'gradient', 'gradient',
+            'jvec',
             'jtvec', 'get_efield', 'get_hfield', 'clean', 'clean', 'copy',
             'copy', 'dict', 'file', 'restart', 'update', 'update'])
         op = {'op': k, 't': rng.randrange(8)}
+        if k == 'partial':
+            # results without (all) fields: keep the results only, then ask
+            # for the field of a single source-frequency pair
+            op['how'] = rng.choice(['keepresults', 'results_file'])
+            op['fmt'] = rng.choice(FMTS)
+            op['s'] = rng.randrange(len(survey['sources']))
+            op['f'] = rng.randrange(len(survey['frequencies']))
         if k in ('get_efield', 'get_hfield'):
             op['s'] = rng.randrange(len(survey['sources']))
             op['f'] = rng.randrange(len(survey['frequencies']))
@@ -437,6 +445,27 @@ class C12(Machine):
                 self._cmp(ctx, got, want, 'history_dependence', k, k,
                           f'{k} on object {obj.id}')
                 ctx.event(k, {'t': obj.id, 'out': _sh(got)})
+            elif k == 'partial':
+                _ = _outcome(lambda: sim.misfit)
+                if op['how'] == 'keepresults':
+                    sim.clean('keepresults')
+                else:
+                    path = os.path.join(ctx.scratch,
+                                        f"part{ctx.opi}.{op['fmt']}")
+                    sim.to_file(path, what='results', verb=0)
+                    new_sim = emg3d.Simulation.from_file(path, verb=0)
+                    obj.sim = sim = new_sim
+                if not cfg.get('layered'):
+                    got = self._observe(ctx, cfg, obj,
+                                        dict(op, op='get_efield'), srcs,
+                                        freqs)
+                    want = self._want(ctx, cfg, obj,
+                                      dict(op, op='get_efield'), srcs, freqs)
+                    self._cmp(ctx, got, want, 'history_dependence',
+                              'get_efield', k, f'get_efield on object '
+                              f'{obj.id} with results but no fields')
+                ctx.stats.probe('partial_fields')
+                ctx.event(k, op['how'])
             elif k == 'clean':
                 sim.clean(op['what'])
                 ctx.event(k, op['what'])
